@@ -1,1 +1,6 @@
 import SmtpV.Props.C15
+#print axioms SmtpV.Props.C15.C15_mail_one_line
+#print axioms SmtpV.Props.C15.C15_rcpt_one_line
+#print axioms SmtpV.Props.C15.C15_hostile_address_refused
+#print axioms SmtpV.Props.C15.C15_no_ext_no_params
+#print axioms SmtpV.Props.C15.C15_unoffered_is_error
